@@ -232,6 +232,15 @@ impl<C: ConfigurationAccess> PciRoot<C> {
             .read_word(device_function, BAR0_OFFSET + 4 * bar_index);
         let io_space = bar_orig & 0x00000001 == 0x00000001;
 
+        // A 64-bit memory BAR needs a second register, so it can't be in the last slot. Check this
+        // before writing anything to the BAR, so there is nothing to restore but the command.
+        if bar_orig & 0b111 == 0b100 && bar_index >= 5 {
+            if command_disable_decode != command_orig {
+                self.set_command(device_function, command_orig);
+            }
+            return Err(PciError::InvalidBarType);
+        }
+
         // Get the size of the BAR.
         self.configuration_access.write_word(
             device_function,
@@ -245,9 +254,6 @@ impl<C: ConfigurationAccess> PciRoot<C> {
 
         // Read the upper 32 bits of 64-bit memory BARs.
         let (address_top, size_top) = if bar_orig & 0b111 == 0b100 {
-            if bar_index >= 5 {
-                return Err(PciError::InvalidBarType);
-            }
             let bar_top_orig = self
                 .configuration_access
                 .read_word(device_function, BAR0_OFFSET + 4 * (bar_index + 1));
